@@ -18,6 +18,12 @@ import (
 var l0Result = regexp.MustCompile(`\$ret\d+`)
 var l0Predicate = regexp.MustCompile(`^!?\$[\w.()]*\.(Is|Has|Requires)[A-Za-z]*\([^()]*\)$`)
 
+// l0Measure: a comparison of two measurements of the inputs (field reads / argument-free method
+// calls on a parameter, integer literals) without any arithmetic: ($r.Size() == $r.len()),
+// ($r.viewOf == 0). Like a named predicate it is a fact about the inputs the table's definition
+// does not mention, so it is a free variable of the truth table.
+var l0Measure = regexp.MustCompile(`^\((\$[A-Za-z_]\w*(\.[A-Za-z_]\w*(\(\))?)*|\d+) (==|>=|>) (\$[A-Za-z_]\w*(\.[A-Za-z_]\w*(\(\))?)*|\d+)\)$`)
+
 type l0Entry struct {
 	Func    string            // function key
 	Target  string            // "" = boolean result; else the named boolean variable
@@ -164,12 +170,12 @@ func L0(rc *RC, only func(fn string) bool) {
 			}
 			opaque := ""
 			for _, a := range extra {
-				if strings.Contains(a, "%") || l0Result.MatchString(a) || !l0Predicate.MatchString(a) {
+				if strings.Contains(a, "%") || l0Result.MatchString(a) || !(l0Predicate.MatchString(a) || l0Measure.MatchString(a)) {
 					opaque = a // a local, the result variable, bit arithmetic: not a named predicate of the inputs
 				}
 			}
 			if opaque != "" {
-				rc.S.Undec("L0", key, pos, "the definition is written over "+opaque+", which is not a named predicate of the inputs (only Is…/Has…/Requires… calls are taken as free variables): "+f.String())
+				rc.S.Undec("L0", key, pos, "the definition is written over "+opaque+", which is not a named predicate of the inputs (only Is…/Has…/Requires… calls and plain comparisons of measurements are taken as free variables): "+f.String())
 				continue
 			}
 			if len(extra) > 6 {
